@@ -58,10 +58,10 @@ func genCase(t *rapid.T) Case {
 	}
 	c.Mut = Mutation{
 		Dir:    rapid.IntRange(0, 1).Draw(t, "dir"),
-		Seg:    rapid.IntRange(0, 7).Draw(t, "seg"),
+		Seg:    rapid.SampledFrom([]int{0, 0, 0, 1, 1, 2, 3, 4, 5, 6, 7}).Draw(t, "seg"), // segment 0 of a direction is the handshake
 		Field:  rapid.IntRange(0, 7).Draw(t, "field"),
 		Off:    rapid.IntRange(0, 5000).Draw(t, "off"),
-		Kind:   rapid.IntRange(0, 8).Draw(t, "kind"),
+		Kind:   rapid.SampledFrom([]int{0, 1, 2, 3, 4, 5, 5, 6, 6, 6, 7, 8, 8}).Draw(t, "kind"),
 		N:      rapid.SampledFrom([]int{1, 2, 16, 100}).Draw(t, "n"),
 		Repeat: rapid.IntRange(1, 3).Draw(t, "repeat"),
 	}
